@@ -202,6 +202,10 @@ where
     ///
     /// * `digraph`: The digraph.
     /// * `sources`: The source vertices.
+    ///
+    /// # Panics
+    ///
+    /// Panics if a source vertex isn't in the digraph.
     #[must_use]
     pub fn new<T>(digraph: &'a D, sources: T) -> Self
     where
@@ -214,6 +218,8 @@ where
         let dist_ptr = dist.as_mut_ptr();
 
         for u in sources {
+            assert!(u < order, "u = {u} isn't in the digraph");
+
             unsafe { *dist_ptr.add(u) = 0 };
 
             heap.push((Reverse(0), (None, u)));
